@@ -49,8 +49,7 @@ struct Ctx {
     std::map<int, int> by_tid; // sim tid -> id
     uint64_t ops_done = 0, hist = 20;
     // join_all bookkeeping
-    bool in_join_all = false;
-    std::vector<uint64_t> ja_real_reads;
+    std::map<int, std::vector<uint64_t>> ja_reads; // per calling simulated thread: wall-clock reads made inside its join_all call
     int main_tid = 0;
     uint64_t timeout_ns = 0;
 };
@@ -199,21 +198,26 @@ void do_join_all(Ctx &c, bool final_call) {
     bool manual_launchers_alive = false;
     for (int i = 1; i <= MAXT; i++)
         if (c.t[i].defined && !c.t[i].managed && c.t[i].launched_ok && !c.t[i].joined_by_api) manual_launchers_alive = true;
-    c.in_join_all = true;
-    c.ja_real_reads.clear();
+    int me = sim::self();
+    c.ja_reads[me].clear();
+    std::vector<uint64_t> &my_reads = c.ja_reads[me];
+    uint64_t timeout_at_call = c.timeout_ns;
+    if (me != c.main_tid) sim::probe("join_all_called_from_a_joinable_thread");
     sim::note(sim::PK_HARNESS, nullptr, 1200);
     bool any_running = false;
     for (int i = 1; i <= MAXT; i++) if (in_s[i] && !c.t[i].fn_done) any_running = true;
     if (any_running) sim::probe("join_all_while_managed_threads_running");
     int rc = aws_thread_join_all_managed();
-    c.in_join_all = false;
+    std::vector<uint64_t> reads = my_reads;
+    c.ja_reads.erase(me);
     c.ops_done++;
     if (rc != AWS_OP_SUCCESS) {
-        if (c.timeout_ns == 0) sim::violation("c20:join-all", "unbounded aws_thread_join_all_managed returned an error");
+        if (timeout_at_call == 0 && c.timeout_ns == 0) sim::violation("c20:join-all", "unbounded aws_thread_join_all_managed returned an error");
         bool reached = false;
-        if (!c.ja_real_reads.empty()) {
-            uint64_t dl = c.ja_real_reads[0] + c.timeout_ns;
-            for (uint64_t v : c.ja_real_reads) if (v >= dl) reached = true;
+        uint64_t tmo = timeout_at_call ? timeout_at_call : c.timeout_ns;
+        if (!reads.empty()) {
+            uint64_t dl = reads[0] + tmo;
+            for (uint64_t v : reads) if (v >= dl) reached = true;
         }
         if (!reached) sim::violation("c20:join-all-timeout", "join_all_managed reported a timeout although the wall clock never reached its deadline");
         sim::probe("join_all_timed_out");
@@ -234,7 +238,7 @@ void do_join_all(Ctx &c, bool final_call) {
         if (r.os_joins != 1) sim::violation("c20:not-joined", "join_all_managed returned but managed thread %d has been joined %d times at OS level", i, r.os_joins);
         if (!sim::thread_done(r.sim_tid)) sim::violation("c20:join-all-early", "join_all_managed returned but managed thread %d has not exited", i);
     }
-    if (!manual_launchers_alive || final_call) {
+    if ((me == c.main_tid && !manual_launchers_alive) || final_call) {
         size_t n = aws_thread_get_managed_thread_count();
         if (n != 0) sim::violation("c20:count", "join_all_managed returned but the managed thread count is %zu", n);
         if (c.timeout_ns == 0) { // with a timeout armed a further call may legitimately report that the deadline has passed
@@ -271,7 +275,7 @@ void body(Ctx &c, int id) {
                     if (rc == AWS_OP_SUCCESS) sim::violation("c20:atexit", "aws_thread_current_at_exit succeeded on a thread that was not launched through aws_thread_launch");
                 }
                 break;
-            case OP_JOIN_ALL: if (id == 0) do_join_all(c, false); break;
+            case OP_JOIN_ALL: if (id == 0 || !c.t[id].managed) do_join_all(c, false); break; // legal from the main thread or any non-managed thread
             case OP_SET_TIMEOUT:
                 if (id == 0) { c.timeout_ns = (uint64_t)op.a; aws_thread_set_managed_join_timeout_ns(c.timeout_ns); }
                 break;
@@ -285,7 +289,7 @@ void body(Ctx &c, int id) {
 
 void observer(const sim::Event &ev, void *ud) {
     Ctx &c = *(Ctx *)ud;
-    if (ev.kind == sim::PK_CLOCK_READ && c.in_join_all && ev.tid == c.main_tid) c.ja_real_reads.push_back((uint64_t)ev.result);
+    if (ev.kind == sim::PK_CLOCK_READ) { auto it = c.ja_reads.find(ev.tid); if (it != c.ja_reads.end()) it->second.push_back((uint64_t)ev.result); }
     if (ev.kind == sim::PK_THREAD_JOIN && ev.result != 0) {
         if (ev.result < 0)
             sim::violation("c20:bad-join", "an OS-level join by T%d failed with errno %lld (self-join, double join or unknown thread)", ev.tid, (long long)-ev.result);
@@ -369,6 +373,7 @@ void gen(uint64_t seed, int tier, sim::Plan &p) {
     p.cfg["alloc_realloc"] = r.chance(0.8);
     p.cfg["alloc_calloc"] = r.chance(0.8);
     p.cfg["alloc_yield"] = r.chance(0.3);
+    p.cfg["max_join_all_callers"] = 1; // joinable threads that call join-all besides main
     int nmanual = (int)r.range(0, 3), nmanaged = (int)r.range(0, tier ? 6 : 4);
     if (nmanual + nmanaged == 0) nmanaged = 1;
     bool faults = p.get("faults") != 0;
@@ -390,6 +395,8 @@ void gen(uint64_t seed, int tier, sim::Plan &p) {
     // who launches whom: main launches some; threads launch some of the later ones
     std::vector<int> launcher(total + 1, 0);
     for (int i = 2; i <= total; i++) if (r.chance(0.35)) launcher[i] = (int)r.range(1, i - 1);
+    int extra_callers = 0;
+    const int max_extra_callers = (int)p.get("max_join_all_callers", 1);
     auto body_ops = [&](int t) {
         int n = (int)r.range(0, 5);
         if (r.chance(0.01)) { // many at-exit callbacks on one thread
@@ -405,6 +412,7 @@ void gen(uint64_t seed, int tier, sim::Plan &p) {
             else { o.kind = OP_COUNT_QUERY; }
             p.ops.push_back(o);
         }
+        if (t <= nmanual && extra_callers < max_extra_callers && r.chance(0.3)) { extra_callers++; sim::Op j; j.thr = t; j.kind = OP_JOIN_ALL; p.ops.push_back(j); } // concurrent join-all callers
     };
     for (int t = 1; t <= total; t++) {
         body_ops(t);
@@ -456,7 +464,7 @@ std::string op_text(const sim::Op &op) {
         case OP_LAUNCH: snprintf(b, sizeof b, "thread %d: launch(thread %lld)", op.thr, (long long)(op.a % MAXT) + 1); break;
         case OP_JOIN: snprintf(b, sizeof b, "thread %d: aws_thread_join(thread %lld)", op.thr, (long long)(op.a % MAXT) + 1); break;
         case OP_DETACH: snprintf(b, sizeof b, "main: aws_thread_clean_up(thread %lld) without joining it (detach)", (long long)(op.a % MAXT) + 1); break;
-        case OP_JOIN_ALL: snprintf(b, sizeof b, "main: aws_thread_join_all_managed()"); break;
+        case OP_JOIN_ALL: snprintf(b, sizeof b, "thread %d: aws_thread_join_all_managed()", op.thr); break;
         case OP_SET_TIMEOUT: snprintf(b, sizeof b, "main: set managed join timeout %lld ns", (long long)op.a); break;
         case OP_SLEEP: snprintf(b, sizeof b, "thread %d: sleep(%lld ns virtual)", op.thr, (long long)op.a); break;
         case OP_YIELD: snprintf(b, sizeof b, "thread %d: yield", op.thr); break;
